@@ -1,7 +1,7 @@
 (* C03/Property.v — property C03 (downloaded log and parameter tables equal the device tables).
    Theorems only; each is closed by `exact <lemma>` and followed by Print Assumptions.
    Model: C03/Model.v (Toc, TocFetcher, element parsers, TOC server, adversary), C03/ExtModel.v. *)
-From CF Require Import Common.Bytes C03.Model C03.ExtModel C03.Proofs C03.Fetch C03.Lookup C03.Live C03.Ext C03.Restart C03.Stale C03.Version.
+From CF Require Import Common.Bytes C03.Model C03.ExtModel C03.Proofs C03.Fetch C03.Lookup C03.Live C03.Ext C03.Restart C03.Stale C03.Version C03.Frame.
 Open Scope Z_scope.
 
 (* Element decoding is the inverse of the firmware's wire encoding: for every entry with NUL-free
@@ -314,3 +314,21 @@ Theorem C03_cleared_toc_refuted :
   g_starts (grun GFixed [GRefresh; GReset; GDisconnect; GReset]) = [true].
 Proof. exact cleared_toc_refuted. Qed.
 Print Assumptions C03_cleared_toc_refuted.
+
+(* Frame property (model C03/Frame.v): tables are values — a download into table B leaves any other table A as it
+   is.  Immediate in the functional model; the tie shows that the implementation has no sharing between tables
+   (table A is re-read after B's download, element object identities are compared). *)
+Theorem C03_download_leaves_other_tables_unchanged : forall c cache ver d a evs,
+  fst (world_run c cache ver d a evs) = a.
+Proof. exact frame. Qed.
+Print Assumptions C03_download_leaves_other_tables_unchanged.
+
+(* a memoised-element variant (one mutable cell per description, reused across tables, ident overwritten) is
+   refuted: downloading the same two entries at swapped indexes into table B changes the indexes seen in table A *)
+Theorem C03_memoised_elements_refuted :
+  let '(w1, ta) := memo_download LogCls (mkMW [] []) [] 0 [dx; dy] in
+  let before := view w1 ta in
+  let '(w2, tb) := memo_download LogCls w1 [] 0 [dy; dx] in
+  map e_ident before = [0; 1] /\ map e_ident (view w2 ta) = [1; 0] /\ map e_ident (view w2 tb) = [0; 1].
+Proof. exact memoised_elements_refuted. Qed.
+Print Assumptions C03_memoised_elements_refuted.
